@@ -18,6 +18,7 @@ RULE = (
     "in the default or a named cluster, delivered in-process or by restart against the same store. Oracle: no read of stored metadata raises; the caller's entry is served (its body does not run) with the stored value; "
     "memento() is found; the stored invocation of the callee (and a stored function-valued argument referring to it) is reported external exactly when that callee version no longer exists (asserted for edit / re-version / rename / remove); listings contain the stored names. "
     "Non-trivial: A/B - a separator character (: # . @) inside cluster or version; C - an evolution that makes a referenced version vanish. Distinct by case."
+    " Round 5: part C also runs with a callee that has two memento dependencies of its own."
 )
 ASSUMPTIONS = [
     "admissible clusters exclude the inherently ambiguous shape <ident>:<ident>#... (such a cluster-qualified name is also a valid cluster-less name); counted as excluded",
